@@ -203,6 +203,12 @@ func (cx *c05ctx) verify(img crashImg, depth int) {
 	defer func() {
 		v.Fence()
 		v.Close()
+		// a run makes thousands of these copies (tmpfs is memory): each one goes
+		// as soon as it has been judged
+		if os.Getenv("SIM_KEEP") == "" {
+			os.RemoveAll(v.Dir)
+			os.RemoveAll(img.dir)
+		}
 	}()
 	r.Count("c05.image.verified")
 	r.State("%s/%s", cx.shape, strings.SplitN(img.label, " fault=", 2)[0])
